@@ -15,13 +15,13 @@ CHECKS = {
         ref="DESIGN.md §3 C08"),
     "C10": dict(
         category="other",
-        text="Structural error discipline over everything reachable from main: no Result dropped or swallowed (enumerated discard idioms), no exit/abort/catch_unwind/stderr-on-success, no user unsafe incl. the generated parser, every call-graph cycle listed with a checked bound (parent field construction-only; on-path guard for rendering through mutable heap storage), print is atomic (no failure exit after an observable write), program output is written through (no buffering past a fault), and no faulting instruction is compiled away when a value is discarded (keep=false templates compile the same faulting instructions and children as keep=true). Unlisted recursive components are accepted only as structural recursion over the syntax tree (every call cycle descends to a sub-tree binding). Necessary conditions of the behaviour for every program; native stack bytes, malformed-source classes and stderr text are not decided. No anyhow::Error is wrapped once per element of a run-time collection (a chain dropped recursively).",
+        text="Structural error discipline over everything reachable from main: no Result dropped or swallowed (enumerated discard idioms), no exit/abort/catch_unwind/stderr-on-success, no user unsafe incl. the generated parser, every call-graph cycle listed with a checked bound (parent field construction-only; on-path guard for rendering through mutable heap storage), print is atomic (no failure exit after an observable write), program output is written through (no buffering past a fault), and no faulting instruction is compiled away when a value is discarded (keep=false templates compile the same faulting instructions and children as keep=true). Unlisted recursive components are accepted only as structural recursion over the syntax tree (every call cycle descends to a sub-tree binding). Necessary conditions of the behaviour for every program; native stack bytes, malformed-source classes and stderr text are not decided. No anyhow::Error is wrapped once per element of a run-time collection (a chain dropped recursively). The memory flags size no allocation and steer nothing (C16's R16.inert as a presupposition: an allocation sized by --heap-size can abort the process).",
         note=TB + "; panic=unwind; expect/unwrap exit with status 101 and a message on stderr",
         technique="static analysis: Result def-use discipline on HIR, call-graph SCC census with guard recogniser, who-may-write census, structured may-follow ordering in eval_print",
         ref="DESIGN.md §3 C10"),
     "C11": dict(
         category="other",
-        text="Determinism as absence of sources: exact census that no HashMap/HashSet order-exposing operation, no clock/env/pid/hash-seed/address/thread source (other than the timestamp confined to the heap-log File), no cfg!(debug_assertions)/debug_assert, and no profile-dependent arithmetic on FML values or CLI numerics occurs in code reachable from compile/serialize/load/VM/disassembler; the Cargo profiles agree on the panic strategy. The clap definition of every sub-command is self-consistent (unique ids / long / short names, every id named by a relation attribute exists): clap validates this only in builds with debug assertions, so an inconsistency makes the dev binary panic where the release binary runs (R11.cli). Index/length arithmetic is exempt by provenance (listed per site), which is judgement — hence not 'proof'.",
+        text="Determinism as absence of sources: exact census that no HashMap/HashSet order-exposing operation, no clock/env/pid/hash-seed/address/thread source (other than the timestamp confined to the heap-log File), no cfg!(debug_assertions)/debug_assert, and no profile-dependent arithmetic on FML values or CLI numerics occurs in code reachable from compile/serialize/load/VM/disassembler; the Cargo profiles agree on the panic strategy. The clap definition of every sub-command is self-consistent (unique ids / long / short names, every id named by a relation attribute exists): clap validates this only in builds with debug assertions, so an inconsistency makes the dev binary panic where the release binary runs (R11.cli). `{:p}` is looked for in every body of the crate (Display impls are reached through the formatting machinery, not through visible calls). Index/length arithmetic is exempt by provenance (listed per site), which is judgement — hence not 'proof'.",
         note=TB + "; std/indexmap/third-party crates deterministic for equal inputs; LLVM computes the same results in both profiles for profile-independent operations",
         technique="static analysis: call-graph-scoped census + taint of CLI numerics + operator/operand-type classification on HIR",
         ref="DESIGN.md §3 C11"),
@@ -88,7 +88,7 @@ CHECKS["C07"] = dict(
     ref="DESIGN.md §3 C07")
 CHECKS["C09"] = dict(
     category="other",
-    text="The built-in operations are finite decision tables. First-match pattern semantics (or-patterns, guards) are evaluated over {every spelling that occurs, OTHER} × {Null, Integer, Boolean, Reference} for the three dispatch tables; every cell's action — a closed form over receiver and argument whose meaning is fixed by the operator/method identity — equals S4, including Feeny spellings and operand order; argument count ≠ 1 fails first; an operator application is compiled whether or not its value is used (failing is an effect). Because actions are closed forms over i32 this decides the tables for all operand values. Build independence is decided at the operator level: plain + - * / unary - on i32 inherit overflow checks and are rejected (wrapping_* required); / and % check unconditionally. That a failing built-in fails the program (its Err reaches the exit status) is C10's propagation obligations, evaluated as a presupposition (R9.fails). Integer literals denote their value over the whole 32-bit range (C07's NUMBER / Number obligations as a presupposition).",
+    text="The built-in operations are finite decision tables. First-match pattern semantics (or-patterns, guards) are evaluated over {every spelling that occurs, OTHER} × {Null, Integer, Boolean, Reference} for the three dispatch tables; every cell's action — a closed form over receiver and argument whose meaning is fixed by the operator/method identity — equals S4, including Feeny spellings and operand order; argument count ≠ 1 fails first; an operator application is compiled whether or not its value is used (failing is an effect). Because actions are closed forms over i32 this decides the tables for all operand values. Build independence is decided at the operator level: plain + - * / unary - on i32 inherit overflow checks and are rejected (wrapping_* required); / and % check unconditionally. That a failing built-in fails the program (its Err reaches the exit status) is C10's propagation obligations, evaluated as a presupposition (R9.fails). Integer literals denote their value over the whole 32-bit range (C07's NUMBER / Number obligations as a presupposition). An operator application is compiled where it stands, never by-passed (C12's R12.place as a presupposition).",
     note=TB + "; Rust operator semantics on i32; LLVM",
     technique="static analysis: match-table extraction + finite first-match evaluation + operator/operand-type census",
     ref="DESIGN.md §3 C09")
@@ -113,7 +113,7 @@ CHECKS["C06"] = dict(
     ref="DESIGN.md §3 C06")
 CHECKS["C17"] = dict(
     category="other",
-    text="The listing is the Display rendering of the loaded Program. The Display impls are executed symbolically: every write to the formatter on the path that assumes a variant becomes a segment (literal, displayed value, loop; helpers followed; join(',') and separator loops identified); from the segments: every non-derived Program field is formatted in the S8 order with the S8 headers; for each of the 7+17 variants every field flows into the output; constants, globals and instructions are printed one per line as <position>: <item>, forwards; mnemonics equal S8; the per-variant token patterns (literal words interleaved with operand classes whose textual shape comes from the operand types' own Display templates) are pairwise non-unifiable, so for strings without raw line breaks each line determines its item; the disassemble action prints exactly the loaded program, and the loaded program is the program in the file (C04's reader and C03's loader obligations evaluated as presuppositions). An actual read-back needs execution and is not performed.",
+    text="The listing is the Display rendering of the loaded Program. The Display impls are executed symbolically: every write to the formatter on the path that assumes a variant becomes a segment (literal, displayed value, loop; helpers followed; join(',') and separator loops identified); from the segments: every non-derived Program field is formatted in the S8 order with the S8 headers; for each of the 7+17 variants every field flows into the output; constants, globals and instructions are printed one per line as <position>: <item>, forwards; mnemonics equal S8; the per-variant token patterns (literal words interleaved with operand classes whose textual shape comes from the operand types' own Display templates) are pairwise non-unifiable, so for strings without raw line breaks each line determines its item; the disassemble action prints exactly the loaded program, and the loaded program is the program in the file (C04's reader and C03's loader obligations evaluated as presuppositions). Every path of Entry's rendering writes exactly the index (no index value lists as nothing). An actual read-back needs execution and is not performed.",
     note=TB + "; S8 from the listing examples shipped in tests/**/*.bc.txt",
     technique="static analysis: symbolic execution of the Display impls into rendering segments (format_args template capture as fall-back) + field-coverage + pairwise non-unifiability of token patterns",
     ref="DESIGN.md §3 C17")
